@@ -36,11 +36,15 @@ Pfst.C06.prevDelims_single_line
 Pfst.C06.pars_layout
 Pfst.C06.pars_layout_unbalanced
 Pfst.C06.findContains_bruteforce
+Pfst.C06.findContains_bruteforce_wf
+Pfst.C06.findContains_decorators_inert
 Pfst.C06.bruteContains_deepest
+Pfst.C06.bruteContains_top_highest
 Pfst.C06.findIn_bruteforce
 Pfst.C06.findLoc_bruteforce
-Pfst.C06.findContains_false_on_decorated
-Pfst.C06.findLoc_exactTop_false
+Pfst.C06.findLoc_decorated_partial
+Pfst.C06.findContains_decorated_witness
+Pfst.C06.findLoc_exactTop_witness
 '''
 
 RULE = ('(a) scanners: generated line blocks (alphabet space, tab, FF, NBSP, #, backslash, parentheses, comma, letters, 2/3/4-byte '
@@ -55,8 +59,11 @@ RULE = ('(a) scanners: generated line blocks (alphabet space, tab, FF, NBSP, #, 
 TRUSTED = [
     'modelled (Pfst/Scan.lean): bistr.c2b/b2c; the four _re_next_frag* regexes incl. Pattern.match pos/endpos clipping and $; '
     'next_frag, prev_frag (with its state cache), next_find, prev_find, next_delims, prev_delims; the body of FST.pars() '
-    'given bloc, _next_bound(), _prev_bound() and the _is_solo_* predicates as inputs; find_contains_loc / find_in_loc / '
-    'find_loc as one pass over the walk(\'loc\') preorder list',
+    'given bloc, _next_bound(), _prev_bound() and the _is_solo_* predicates as inputs; find_contains_loc (with the '
+    '\'top\' exit of the descent loop and the search of the decorators of a definition that does not contain the '
+    'location) / find_in_loc / find_loc as one pass over the walk(\'loc\') preorder list, the decorator roots given as input',
+    'the recursive find_contains_loc call on a decorator is modelled by the pass without decorator search (a decorator '
+    'expression cannot contain a decorated definition); compared with the real function on every corpus list',
     'not modelled (checked only by the CPython-judged sweep): _loc_op, _loc_arguments, _loc_comprehension, _loc_withitem, '
     '_loc_match_case, _loc_decorator, _loc_block_header_end, bloc, _next_bound/_prev_bound, walk order, next_find_re',
     'bistr.b2c is modelled by its closed form (byte inside character i -> i) instead of the scatter + forward-fill loops; '
@@ -69,8 +76,9 @@ TRUSTED = [
     'with or without the one blank after `lambda`; match_case accepted with or without a trailing `;`',
 ]
 ASSUMPTIONS = [
-    'the hypothesis wfList of the find*_bruteforce theorems is evaluated by the Lean driver on every real node list '
-    '(lists containing decorated definitions or `{x=}` f-strings are not well-formed: reported as wf_false)',
+    'the hypotheses wfList / wfListD of the find*_bruteforce theorems are evaluated by the Lean driver on every real node '
+    'list (wfListD: decorators before their definition; it fails only on lists with `{x=}` f-strings, whose parts CPython '
+    'overlaps; reported as find_lists_wfListD_false)',
     'lines contain no newline characters; source positions are within the lines',
 ]
 
@@ -115,6 +123,7 @@ SNIPPETS = [
     'def f(a: (int) = (1), /, b=(2), *c: (x), d=(3), **e: (y)) -> (z): pass',
     'def f(): return "#"\nif a: x = \'#\'\nclass C: x = "a#b"  \nfor i in j:\n    y = "# not a comment"\nwhile a:\n    z = f("#")  # real\n',
     'try:\n    x = "#"\nexcept E:\n    y = \'#\'\nelse:\n    z = "#"\nfinally:\n    w = "#" # c\nwith a:\n    v = """#"""\nmatch a:\n    case 1:\n        u = "#"\n',
+    'def f[T: (int, str), *Ts, **P](a: T, *b: (Ts)) -> (T): pass\nasync def g[U: (int)](): pass\nclass K[V: (a, b)](B): pass',
     '@d("#")\ndef f(x="#"): return x["#"]\nasync def g():\n    async with a: await b("#")\n',
 ]
 
@@ -286,7 +295,8 @@ def _corr_prog_inner(arg):
         impl.append([idof(root.find_loc(*q)), idof(root.find_loc(*q, True)), idof(root.find_contains_loc(*q, True)),
                      idof(root.find_contains_loc(*q, False)), idof(root.find_contains_loc(*q, 'top')),
                      idof(root.find_in_loc(*q))])
-    out['find'] = ({'f': 'C06.find', 'nodes': nl, 'queries': qs}, impl)
+    decos = [k for k, (f, _, _) in enumerate(nodes) if f.pfield and f.pfield.name == 'decorator_list']
+    out['find'] = ({'f': 'C06.find', 'nodes': nl, 'decos': decos, 'queries': qs}, impl)
     return out
 
 
@@ -764,12 +774,14 @@ def correspondence(ctx):
         return
     bad = 0
     wf_false = 0
+    wf_plain_false = 0
     thm_bad = 0
     first = None
     for c, io_, mo in zip(fcases, fimpl, outs):
         m = mo.get('out', {})
-        wf = m.get('wf')
+        wf = m.get('wfd')
         wf_false += not wf
+        wf_plain_false += not m.get('wf')
         for qq, a, b in zip(c['queries'], io_, m.get('r', [])):
             ctx.corr_cases += 1
             ctx.count(str((c['nodes'], qq)), any(x is not None for x in a))
@@ -778,12 +790,15 @@ def correspondence(ctx):
                 first = first or {'query': qq, 'impl': a, 'model': b[:6], 'nodes': c['nodes'][:40]}
                 if len(ctx.hints) < 50:
                     ctx.hints.append(('find', c))
-            if wf and (b[2:5] != b[6:9] or b[5] != b[9]):
+            nonempty = (qq[0], qq[1]) < (qq[2], qq[3])
+            # findContainsD_bruteforce: wfListD + non-empty rectangle (or plain wfList);  findIn_bruteforce: plain wfList
+            if ((m.get('wf') or (wf and nonempty)) and b[2:5] != b[6:9]) or (m.get('wf') and b[5] != b[9]):
                 thm_bad += 1
-                first = first or {'query': qq, 'model': b, 'note': 'wf list but pass != brute force'}
+                first = first or {'query': qq, 'model': b, 'nodes': c['nodes'][:12], 'decos': c.get('decos'), 'note': 'wf list but pass != brute force'}
     ctx.dist.setdefault('correspondence_cases', {})['find_*loc vs Pfst.Scan.findLoc/findContains/findIn'] = sum(len(i) for i in fimpl)
     ctx.notes['find_lists'] = len(fcases)
-    ctx.notes['find_lists_wf_false'] = wf_false
+    ctx.notes['find_lists_wfListD_false'] = wf_false
+    ctx.notes['find_lists_wfList_false'] = wf_plain_false
     if bad:
         ctx.brk('correspondence', 'find_*loc vs Pfst.Scan', f'{bad} answers differ; first: {first}')
     if thm_bad:
@@ -848,14 +863,19 @@ LEVEL_TEXT = ('Lean 4 theorems about an executable model of the scanning layer u
               'inside the bound (sound and complete for comment x lcont in {False, True}, sound for lcont=None); pars() = '
               'min(opening, closing) delimiters and, on the layout family pre (^g node )^g post with any spacing, any node '
               'text and a context without adjacent parentheses, reports exactly g pairs and the outermost span (induction on '
-              'g, through the prev_frag state cache); find_contains_loc / find_in_loc / find_loc equal the brute-force '
-              'selection on every geometrically well-formed node list. Tied to /repo by running model and implementation on '
+              'g, through the prev_frag state cache); find_contains_loc (as repaired: \'top\' honoured in the descent, decorators '
+              'searched) equals the brute-force selection over all nodes on every geometrically well-formed node list, '
+              'decorated definitions included (non-empty rectangles); find_in_loc / find_loc likewise on lists without '
+              'nodes outside their parent. Tied to /repo by running model and implementation on '
               'the same inputs each run, and the property itself is judged on the real code by CPython ast + tokenize.')
 LEVEL_NOTE = ('Partial: theorems are about the model (tie = differential, ~0.8M answers quick / ~25M thorough per run); '
               'prev_frag is proved only for one line without # / backslash before the fragment (the general mirror statement '
               'is false of the code: its forward scan stops at the first comment); pars_layout is single-line (multi-line '
               'layouts with comments/continuations: decide examples + correspondence + token-matcher sweep); the computed '
               'locations _loc_op/_loc_arguments/_loc_comprehension/_loc_withitem/_loc_match_case/_loc_decorator/bloc are not '
-              'modelled, they are checked per node against an independent tokenize/ast oracle. Two confirmed defects of the '
-              'search functions are proved on the model as *_false theorems and listed as C06-F1, C06-F2.')
+              'modelled, they are checked per node against an independent tokenize/ast oracle. The two defects of the search '
+              'functions found by this package (C06-F1, C06-F2) are repaired (fixes/C06-F2.diff, fixes/C06-F1.diff); the model, '
+              'the theorems (positive witnesses findContains_decorated_witness, findLoc_exactTop_witness) and the '
+              'correspondence describe the repaired functions; find_loc on lists with decorated definitions is partial (its '
+              'find_in_loc part is not proved equal to brute force there).')
 TECHNIQUE = 'Lean 4 proof (list/arith induction, decide) + model-implementation correspondence + CPython-judged sweep'
